@@ -25,17 +25,36 @@ partial def preorder : VTree → List Nat
 
 def validStr : Valid → String | .uneval => "U" | .tru => "T" | .fls => "F"
 
-def run (j : Json) : Except String Json := do
-  let t ← parseTree (← fld j "tree")
+/-- observation of one `validate()` call; `prev` holds the `.valid` flags left by earlier calls on
+    the same tree (a fresh tree has none: everything Unevaluated) -/
+def runOne (t : VTree) (prev : List (Nat × Valid)) : (Json × Bool) × List (Nat × Valid) :=
   let r := validate t
   let s := Spec.specValidate t
-  let look (id : Nat) : Valid := ((r.valids.find? (·.1 == id)).map (·.2)).getD .uneval
-  let valids := (preorder t).map (fun id => Json.arr #[ofNat id, Json.str (validStr (look id))])
-  let allValid := (preorder t).all (fun id => (look id).truthy)
+  let look (id : Nat) : Valid :=
+    match r.valids.find? (·.1 == id) with
+    | some p => p.2
+    | none => ((prev.find? (·.1 == id)).map (·.2)).getD .uneval
+  let now := (preorder t).map (fun id => (id, look id))
+  let valids := now.map (fun p => Json.arr #[ofNat p.1, Json.str (validStr p.2)])
+  let allValid := now.all (fun p => p.2.truthy)
   let specAgrees := r.ret == s.ret && r.log == s.log &&
     r.valids.map (fun p => (p.1, validStr p.2)) == s.valids.map (fun p => (p.1, validStr p.2))
-  return obj [("ret", Json.bool r.ret), ("valids", Json.arr valids.toArray),
+  ((obj [("ret", Json.bool r.ret), ("valids", Json.arr valids.toArray),
     ("log", ofList (fun (c : Call) => Json.arr #[ofNat c.1, Json.bool c.2.1, ofNat c.2.2]) r.log),
-    ("all_valid", Json.bool allValid), ("spec_agrees", Json.bool specAgrees)]
+    ("all_valid", Json.bool allValid)], specAgrees), now)
+
+/-- case: "tree" (first call, fresh tree) and optionally "rounds": the same tree shape with other
+    outcomes / flags, validated again on the SAME element tree -/
+def run (j : Json) : Except String Json := do
+  let t ← parseTree (← fld j "tree")
+  let rounds ← (← arr (fldD j "rounds" (Json.arr #[]))).mapM parseTree
+  let ((o0, a0), st0) := runOne t []
+  let ((outs, agrees), _) := rounds.foldl (fun (acc : (List Json × Bool) × List (Nat × Valid)) rt =>
+    let ((o, a), st) := runOne rt acc.2
+    ((acc.1.1 ++ [o], acc.1.2 && a), st)) (([], a0), st0)
+  match o0 with
+  | .obj _ =>
+    return (o0.setObjVal! "rounds" (Json.arr outs.toArray)).setObjVal! "spec_agrees" (Json.bool agrees)
+  | _ => throw "internal"
 
 end Flatland.Run.C05
